@@ -14,6 +14,7 @@ Definition owned (g : graph) (o : op) (x : N) : Prop :=
   | ONodeRemoveNs n sn => exists s, In s (first_neighbor g n RHas CNS) /\ name_of g s = sn /\ O_ns g s x
   | ODisconnect _ i => exists p, get_peers_typed g i T_ServicePort = Some [p] /\ O_cp g p true x
   | OUnpeer a b => exists xy, unpeer_ends g a b = Some [xy] /\ (x = fst xy \/ x = snd xy)
+  | OUnpeer6 a b => exists xy, In xy (unpeer_pairs g a b) /\ (x = fst xy \/ x = snd xy)
   | ORemoveInterface s nm => exists i, In i (cpn g s) /\ name_of g i = nm /\ O_cp g i true x
   | ORemoveChild p nm => In x (cpn g p) /\ name_of g x = nm
   | OPrune => False
@@ -41,6 +42,7 @@ Proof.
     apply first_neighbor_In in Hs. tauto.
   - destruct Hx as [p [Hp Ho]].
     apply (closed_O_cp g tr p x (closed_exec ex (ODisconnect s i) cs g r g' tr eq_refl E) (T p Hp) Ho).
+  - apply T. exact Hx.
   - apply T. exact Hx.
   - destruct Hx as [i [Hi [Hnm Ho]]].
     apply (closed_O_cp g tr i x (closed_exec ex (ORemoveInterface s iname) cs g r g' tr eq_refl E) (T i (conj Hi Hnm)) Ho).
